@@ -229,5 +229,19 @@ func init() {
 	addProp(&Prop{ID: "C06", DesignRef: "DESIGN.md §4 C06", Runs: []HarnessRun{
 		crash("Publish", 6, B{"segs": 2, "recs": 1, "maxmsgs": 1, "vers": 1, "profs": 1, "publishes": 1, "batch": 1, "taps": 32}, B{"segs": 2, "recs": 2, "vers": 2, "profs": 1, "publishes": 2, "batch": 2, "taps": 64}, "crashed", "completed", "synced"),
 	}, Assumptions: []string{"tail-loss model of the property: at the crash every file is independently cut back to any length between its last fsynced length and its current length (the first 8 bytes of a file are atomic); directory operations are durable in program order"}})
+	// C18: notify and the blocking wrapper under the schedule variable
+	three := func(map[string]int) int { return 3 }
+	addProp(&Prop{ID: "C18", DesignRef: "DESIGN.md §4 C18, §10.6", Runs: []HarnessRun{
+		{Name: "h_sync.NotifyImmediate", Quick: B{"sched_replay": 1}, Reach: []string{"below", "after-close"}},
+		{Name: "h_sync.BlockingImmediate", Quick: B{"sched_replay": 1}, Reach: []string{"immediate"}},
+		{Name: "h_sync.NotifyWake", Quick: B{"waiters": 2, "publishers": 1, "preemptions": 1, "sched_replay": 1}, Thorough: B{"waiters": 2, "publishers": 2, "preemptions": 2, "sched_replay": 1},
+			Split: []SplitDim{{"waiters", same("waiters")}, {"publishers", same("publishers")}, {"close", two}}, Reach: []string{"still-parked", "returned"}},
+		{Name: "h_sync.BlockingWake", Quick: B{"waiters": 1, "publishers": 1, "preemptions": 1, "sched_replay": 1}, Thorough: B{"waiters": 2, "publishers": 2, "preemptions": 2, "sched_replay": 1},
+			Split: []SplitDim{{"waiters", same("waiters")}, {"publishers", same("publishers")}, {"close", two}, {"cancel", two}, {"woff", three}},
+			Reach: []string{"still-parked", "returned", "cancelled", "woken-below-offset"}},
+	}, Assumptions: []string{"sequential consistency; context switches only at visible operations (atomics, channel operations, select, mutex operations, goroutine start/exit)",
+		"bounded: waiters, publishers and preemptive context switches as listed in coverage.harnesses[*].bounds (switches at blocking operations are free)",
+		"schedule counterexamples are validated by concrete re-execution of the real SSA under the model's inputs and the recorded schedule (not by a native run: free-running goroutines do not follow a schedule)",
+		"the blocking wrapper runs over a minimal sequential Log written in the harness (it only uses the Log interface)"}})
 	addProp(&Prop{ID: "C12", DesignRef: "DESIGN.md §4 C12", Runs: []HarnessRun{minOff, stepDelete, stepDelete2, stepDelMulti}})
 }
